@@ -380,6 +380,7 @@ impl KeyPair {
 				panic!("Unknown SignatureAlgorithm specified!");
 			};
 
+			let serialized_der = pkcs8_der(&kind, key)?;
 			Ok(KeyPair {
 				kind,
 				alg,
@@ -624,12 +625,33 @@ impl TryFrom<&PrivateKeyDer<'_>> for KeyPair {
 			(kind, alg)
 		};
 
+		#[cfg(feature = "aws_lc_rs")]
+		let serialized_der = pkcs8_der(&kind, key)?;
+		#[cfg(all(feature = "ring", not(feature = "aws_lc_rs")))]
+		let serialized_der = key.secret_der().into();
+
 		Ok(KeyPair {
 			kind,
 			alg,
-			serialized_der: key.secret_der().into(),
+			serialized_der,
 		})
 	}
+}
+
+/// The PKCS#8 serialization of a freshly loaded key pair.
+///
+/// [`KeyPair::serialize_der`] and [`KeyPair::serialize_pem`] hand out PKCS#8 (and label it as
+/// such), so a key that was given in SEC1 or PKCS#1 form is converted.
+#[cfg(all(feature = "crypto", feature = "aws_lc_rs"))]
+fn pkcs8_der(kind: &KeyPairKind, key: &PrivateKeyDer<'_>) -> Result<Vec<u8>, Error> {
+	use aws_lc_rs::encoding::AsDer;
+
+	Ok(match (key, kind) {
+		(PrivateKeyDer::Pkcs8(_), _) => key.secret_der().to_vec(),
+		(_, KeyPairKind::Ec(key_pair)) => key_pair.to_pkcs8v1()._err()?.as_ref().to_vec(),
+		(_, KeyPairKind::Rsa(key_pair, _)) => key_pair.as_der()._err()?.as_ref().to_vec(),
+		_ => key.secret_der().to_vec(),
+	})
 }
 
 /// The key size used for RSA key generation
